@@ -21,6 +21,24 @@ def zeq(a, b):
     return z3.eq(z3.simplify(a), z3.simplify(b))
 
 
+def forall_pat(vs, body, pats):
+    """ForAll with patterns when z3 accepts them (terms with ite are not valid patterns)"""
+    def has_ite(e):
+        stack = [e]
+        while stack:
+            x = stack.pop()
+            if z3.is_app(x) and x.decl().kind() == z3.Z3_OP_ITE:
+                return True
+            stack.extend(x.children())
+        return False
+    if any(has_ite(p_) for p_ in pats):
+        return z3.ForAll(vs, body)
+    try:
+        return z3.ForAll(vs, body, patterns=pats)
+    except z3.Z3Exception:
+        return z3.ForAll(vs, body)
+
+
 class Sel(object):
     """Selector for one source axis. kind: 'fix' (index idx) | 'map' (result axis of length n,
     source index = fn(r)) ; adv marks advanced (list/array) selectors."""
@@ -129,11 +147,12 @@ class NumpyModel(object):
                 if not zeq(r.shape[0], m):
                     raise Unsupported('ragged nested sequence')
             dt = self.join_dtype([r.dtype for r in rows])
+            rfns = [r.fn for r in rows]
 
-            def fn(i, j, rows=rows, dt=dt):
-                e = self.cast(rows[-1].fn(j), rows[-1].dtype, dt)
+            def fn(i, j, rows=rows, dt=dt, rfns=rfns):
+                e = self.cast(rfns[-1](j), rows[-1].dtype, dt)
                 for k in range(len(rows) - 2, -1, -1):
-                    e = z3.If(i == k, self.cast(rows[k].fn(j), rows[k].dtype, dt), e)
+                    e = z3.If(i == k, self.cast(rfns[k](j), rows[k].dtype, dt), e)
                 return e
             return self.new([n, m], dt, fn)
         if isinstance(v, Seq):
@@ -347,9 +366,10 @@ class NumpyModel(object):
             raise Unsupported('arithmetic on object arrays')
         shape, (fa, fb) = self.broadcast([A, B])
         ka, kb = ZK[A.dtype], ZK[B.dtype]
+        Afn, Bfn = A.fn, B.fn          # operands are read now
         if op in ('BitAnd', 'BitOr', 'BitXor') and A.dtype == 'bool' and B.dtype == 'bool':
             zf = {'BitAnd': z3.And, 'BitOr': z3.Or, 'BitXor': z3.Xor}[op]
-            fn = lambda *idx: zf(A.fn(*fa(idx)), B.fn(*fb(idx)))
+            fn = lambda *idx: zf(Afn(*fa(idx)), Bfn(*fb(idx)))
             return self.finish(shape, 'bool', fn, [A, B])
         # python scalars do not upcast integer arrays to float unless they are floats themselves
         if op == 'Div':
@@ -370,14 +390,14 @@ class NumpyModel(object):
             extra['mask'] = b
 
         def fn(*idx):
-            x = SV(A.fn(*fa(idx)), ka, True)
+            x = SV(Afn(*fa(idx)), ka, True)
             if extra.get('mask') is not None:
                 y = extra['mask']
                 y2 = SV(y.z, y.kind, True)
                 if hasattr(y, 'mask_bits'):
                     y2.mask_bits = y.mask_bits
             else:
-                y2 = SV(B.fn(*fb(idx)), kb, True)
+                y2 = SV(Bfn(*fb(idx)), kb, True)
             r = I.binop(op, x, y2)
             e = I.z(r, ZK[dt])
             if dt == 'uint' and bits and op in ('Add', 'Sub', 'Mult', 'LShift'):
@@ -397,14 +417,15 @@ class NumpyModel(object):
         I = self.I
         A, B = self.as_array(a), self.as_array(b)
         shape, (fa, fb) = self.broadcast([A, B])
+        Afn, Bfn = A.fn, B.fn
         if A.dtype == 'xfloat' or B.dtype == 'xfloat':
-            def ext(arr, idx):
+            def ext(arr, f, idx):
                 if arr.dtype == 'xfloat':
-                    return arr.fn(*idx)
-                return (z3.IntVal(0), self.cast(arr.fn(*idx), arr.dtype, 'float'))
+                    return f(*idx)
+                return (z3.IntVal(0), self.cast(f(*idx), arr.dtype, 'float'))
 
             def fn(*idx):
-                (sa, va), (sb, vb) = ext(A, fa(idx)), ext(B, fb(idx))
+                (sa, va), (sb, vb) = ext(A, Afn, fa(idx)), ext(B, Bfn, fb(idx))
                 fin = z3.And(sa == 0, sb == 0)
                 lt = z3.If(fin, va < vb, sa < sb)
                 gt = z3.If(fin, va > vb, sa > sb)
@@ -416,8 +437,8 @@ class NumpyModel(object):
         w = 'float' if num else ('bool' if A.dtype == 'bool' and B.dtype == 'bool' else 'int')
 
         def fn(*idx):
-            x = self.cast(A.fn(*fa(idx)), A.dtype, w)
-            y = self.cast(B.fn(*fb(idx)), B.dtype, w)
+            x = self.cast(Afn(*fa(idx)), A.dtype, w)
+            y = self.cast(Bfn(*fb(idx)), B.dtype, w)
             if w == 'bool' and op not in ('Eq', 'NotEq'):
                 x, y = self.cast(x, 'bool', 'int'), self.cast(y, 'bool', 'int')
             return {'Lt': lambda: x < y, 'Gt': lambda: x > y, 'LtE': lambda: x <= y, 'GtE': lambda: x >= y,
@@ -425,13 +446,14 @@ class NumpyModel(object):
         return self.finish(shape, 'bool', fn, [A, B])
 
     def unop(self, op, a):
+        af = a.fn
         if op == 'Invert':
             if a.dtype == 'bool':
-                return self.finish(a.shape, 'bool', lambda *idx: z3.Not(a.fn(*idx)), [a])
+                return self.finish(a.shape, 'bool', lambda *idx: z3.Not(af(*idx)), [a])
             raise Unsupported('~ on a non-boolean array')
         if op == 'USub':
             if a.dtype in ('int', 'float'):
-                return self.finish(a.shape, a.dtype, lambda *idx: -a.fn(*idx), [a])
+                return self.finish(a.shape, a.dtype, lambda *idx: -af(*idx), [a])
         if op == 'UAdd':
             return a
         if op == 'Not':
@@ -442,24 +464,25 @@ class NumpyModel(object):
         from . import interp as M
         I = self.I
         a = self.as_array(a)
+        af = a.fn
         I.real_axioms()
         f = {'log10': M.log10, 'log': M.flog, 'exp': M.fexp, 'sqrt': M.fsqrt, 'cos': M.fcos, 'sin': M.fsin,
              'log2': M.flog2}.get(name)
         if name == 'abs':
             def fn(*idx):
-                e = a.fn(*idx)
+                e = af(*idx)
                 return z3.If(e < 0, -e, e)
             return self.finish(a.shape, a.dtype, fn, [a])
         if name in ('ceil', 'floor'):
             g = M.fceil if name == 'ceil' else M.ffloor
             self.ceil_axioms()
-            out = self.finish(a.shape, 'float', lambda *idx: z3.ToReal(g(self.cast(a.fn(*idx), a.dtype, 'float'))), [a])
-            out.int_valued_fn = lambda *idx: g(self.cast(a.fn(*idx), a.dtype, 'float'))
+            out = self.finish(a.shape, 'float', lambda *idx: z3.ToReal(g(self.cast(af(*idx), a.dtype, 'float'))), [a])
+            out.int_valued_fn = lambda *idx: g(self.cast(af(*idx), a.dtype, 'float'))
             return out
         if f is None:
             raise Unsupported('ufunc %s' % name)
         self.ax('A-REAL:%s uninterpreted' % name)
-        return self.finish(a.shape, 'float', lambda *idx: f(self.cast(a.fn(*idx), a.dtype, 'float')), [a])
+        return self.finish(a.shape, 'float', lambda *idx: f(self.cast(af(*idx), a.dtype, 'float')), [a])
 
     def ceil_axioms(self):
         from . import interp as M
@@ -482,7 +505,8 @@ class NumpyModel(object):
                 from .interp import raise_py
                 raise_py('TypeError', "Cannot cast ufunc output from float64 to integer with casting rule 'same_kind'")
             bits = tgt.bits
-            out = self.finish(r.shape, tgt.dtype, lambda *idx: self.cast(rr.fn(*idx), rr.dtype, tgt.dtype, bits), [cur])
+            rrf = rr.fn
+            out = self.finish(r.shape, tgt.dtype, lambda *idx: self.cast(rrf(*idx), rr.dtype, tgt.dtype, bits), [cur])
             out.bits = bits
             return out
         return r
@@ -499,12 +523,12 @@ class NumpyModel(object):
             parts = list(key.items)
         else:
             parts = [key]
-        if any(p is None for p in parts):
-            raise Unsupported('newaxis indexing')
         n_ell = sum(1 for p in parts if isinstance(p, EllipsisV))
         if n_ell > 1:
             raise_py('IndexError', "an index can only have a single ellipsis ('...')")
         def consumes(p):
+            if p is None:
+                return 0
             if isinstance(p, NDArr) and p.dtype == 'bool':
                 return p.ndim
             return 1
@@ -522,6 +546,9 @@ class NumpyModel(object):
         sels = []
         ax = 0
         for p in full:
+            if p is None:
+                sels.append(Sel('new'))
+                continue
             dim = arr.shape[ax]
             dz = self.dim_z(dim)
             if isinstance(p, SliceV):
@@ -553,7 +580,7 @@ class NumpyModel(object):
             elif isinstance(p, NDArr) and p.dtype in ('int', 'uint'):
                 if p.ndim != 1:
                     raise Unsupported('multi-dimensional integer index array')
-                sels.append(self.intarr_sel(lambda r, p=p: p.fn(r), p.shape[0], dim, ax))
+                sels.append(self.intarr_sel(lambda r, pf=p.fn: pf(r), p.shape[0], dim, ax))
             elif isinstance(p, (Seq, SymSeq, RangeV)):
                 sels.append(self.seq_sel(p, dim, ax))
             elif I.kind(p) == 'real':
@@ -608,15 +635,35 @@ class NumpyModel(object):
         ctx = I.ctx
         self.ax('boolean-mask indexing = order-preserving filter (count/sel/rank)')
         dz = self.dim_z(dim)
+        cache = getattr(ctx, '_mask_cache', None)
+        if cache is None:
+            cache = ctx._mask_cache = {}
+        key = self.content_key(mask)
+        hit = cache.get(key)
+        if hit is not None:
+            return hit[1]          # the same mask contents always enumerate the same rows
+        s_ = self._mask_sel(mask, dim, dz)
+        cache[key] = (mask.root()._fn, s_)     # keeps the function object alive (ids stay unique)
+        return s_
+
+    def content_key(self, a):
+        r = a.root()
+        return (id(r._fn), None if a.view_of is None else id(a))
+
+    def _mask_sel(self, mask, dim, dz):
+        I = self.I
+        ctx = I.ctx
+        mfn = mask.fn
         if isinstance(dim, int) and dim <= 8:
             # concrete small: explicit prefix counts
-            flags = [mask.fn(z3.IntVal(i)) for i in range(dim)]
+            flags = [mfn(z3.IntVal(i)) for i in range(dim)]
             cnt = z3.Sum([z3.If(f, 1, 0) for f in flags]) if flags else z3.IntVal(0)
             sel = ctx.fresh_fn('sel', z3.IntSort(), z3.IntSort())
             for i in range(dim):
                 before = z3.Sum([z3.If(f, 1, 0) for f in flags[:i]]) if i else z3.IntVal(0)
                 ctx.assume(z3.Implies(flags[i], sel(before) == i))
             s = Sel('map', n=self.norm_dim(cnt), fn=lambda r, sel=sel: sel(r), adv=True, mask=mask)
+            s.mask_fn = mfn
             return s
         cnt = ctx.fresh_int('cnt')
         sel = ctx.fresh_fn('sel', z3.IntSort(), z3.IntSort())
@@ -624,15 +671,16 @@ class NumpyModel(object):
         ctx.assume(z3.And(0 <= cnt, cnt <= dz))
         r, r2, i = z3.Ints('flt_r flt_r2 flt_i')
         ctx.assume(z3.ForAll([r], z3.Implies(z3.And(0 <= r, r < cnt),
-                                             z3.And(0 <= sel(r), sel(r) < dz, mask.fn(sel(r)), rank(sel(r)) == r)),
+                                             z3.And(0 <= sel(r), sel(r) < dz, mfn(sel(r)), rank(sel(r)) == r)),
                              patterns=[sel(r)]))
         ctx.assume(z3.ForAll([r, r2], z3.Implies(z3.And(0 <= r, r < r2, r2 < cnt), sel(r) < sel(r2)),
                              patterns=[z3.MultiPattern(sel(r), sel(r2))]))
-        ctx.assume(z3.ForAll([i], z3.Implies(z3.And(0 <= i, i < dz, mask.fn(i)),
+        ctx.assume(z3.ForAll([i], z3.Implies(z3.And(0 <= i, i < dz, mfn(i)),
                                              z3.And(0 <= rank(i), rank(i) < cnt, sel(rank(i)) == i)),
                              patterns=[rank(i)]))
         s = Sel('map', n=cnt, fn=lambda r_, sel=sel: sel(r_), adv=True, mask=mask)
         s.cnt, s.sel, s.rank = cnt, sel, rank
+        s.mask_fn = mfn
         return s
 
     def intarr_sel(self, f, n, dim, ax):
@@ -684,6 +732,17 @@ class NumpyModel(object):
             raise_py('IndexError', 'only integers, slices (`:`), ellipsis (`...`), numpy.newaxis (`None`) and integer or boolean arrays are valid indices')
         if isinstance(p, RangeV):
             p = I.range_to_symseq(p)
+        probe = I.pure_elem_nofork(p, z3.Int('sel_probe'))
+        if I.kind(probe) == 'bool':
+            # a list of booleans is a mask, whatever its length
+            pz = I.z(p.n, 'int')
+            mk = self.new([self.norm_dim(pz)], 'bool', lambda r, p=p: I.z(I.pure_elem_nofork(p, r), 'bool'))
+            if not zeq(mk.shape[0], dim):
+                if not I.ctx.branch(self.dim_z(mk.shape[0]) == self.dim_z(dim)):
+                    raise_py('IndexError', 'boolean index did not match indexed array along axis %d' % ax)
+            return self.mask_sel(mk, dim)
+        if I.kind(probe) != 'int':
+            raise_py('IndexError', 'only integers, slices (`:`), ellipsis (`...`), numpy.newaxis (`None`) and integer or boolean arrays are valid indices')
         # symbolic-length list of ints
         def f(r, p=p):
             v = I.pure_elem_nofork(p, r)
@@ -692,8 +751,6 @@ class NumpyModel(object):
 
     def getitem(self, arr, key):
         I = self.I
-        if arr.stale:
-            raise Unsupported('read through a view whose base was written (A-VIEW)')
         if arr.dtype == 'object':
             raise Unsupported('indexing an object array')
         sels = self.parse_key(arr, key)
@@ -701,6 +758,8 @@ class NumpyModel(object):
 
     def apply_sels(self, arr, sels):
         advs = [s for s in sels if s.kind == 'map' and s.adv]
+        if any(s.kind == 'new' for s in sels) and advs:
+            raise Unsupported('newaxis combined with advanced indexing')
         if len(advs) > 1:
             # several advanced indices broadcast together (pairs); only equal lengths
             n0 = advs[0].n
@@ -713,6 +772,9 @@ class NumpyModel(object):
         plan = []      # per source axis: ('fix', idx) | ('res', result axis position)
         adv_pos = None
         for s in sels:
+            if s.kind == 'new':
+                out_shape.append(1)
+                continue
             if s.kind == 'fix':
                 plan.append(('fix', s))
             elif s.adv and adv_pos is not None:
@@ -723,35 +785,48 @@ class NumpyModel(object):
                 plan.append(('res', len(out_shape), s))
                 out_shape.append(s.n)
         # an int index next to an advanced index takes part in the advanced group (no new axis): same result
-        src = arr
-
-        def fn(*ridx):
+        def to_base(*ridx, plan=plan):
             sidx = []
             for p in plan:
                 if p[0] == 'fix':
                     sidx.append(p[1].idx)
                 else:
                     sidx.append(p[2].fn(ridx[p[1]]))
-            return src.fn(*sidx)
+            return sidx
         if not out_shape and all(p[0] == 'fix' for p in plan):
             if arr.dtype == 'xfloat':
                 raise Unsupported('scalar read from an extended-real array')
-            return self.scalar(fn(), arr.dtype)
-        snapshot_fn = arr.fn
-        srcfn = lambda *sidx, f=snapshot_fn: f(*sidx)
-        src = NDArr(arr.shape, arr.dtype, snapshot_fn)      # value semantics: later writes to arr not seen
-        out = self.new(out_shape, arr.dtype, fn, cls=arr.cls if arr.cls == 'FCSData' else None,
+            return self.scalar(arr.fn(*to_base()), arr.dtype)
+        out = self.new(out_shape, arr.dtype, None, cls=arr.cls if arr.cls == 'FCSData' else None,
                        finalize_from=arr if arr.cls == 'FCSData' else None)
         out.bits = arr.bits
-        if not advs:
+        if advs:
+            # advanced indexing copies the selected values
+            af = arr.fn
+            out._fn = lambda *ridx, af=af, to_base=to_base: af(*to_base(*ridx))
+        else:
+            # basic indexing: a view
             out.view_of = arr
-            arr_views = getattr(arr, 'views', None)
-            if arr_views is None:
-                arr.views = arr_views = []
-            arr_views.append(out)
+            out.to_base = to_base
+            invs = [None if p[0] == 'fix' else self.inverse_of(p[2]) for p in plan]
+            nres = len(out_shape)
+
+            def from_base(*bidx, plan=plan, invs=invs, nres=nres):
+                conds = []
+                vidx = [None] * nres
+                for p, inv, b_ in zip(plan, invs, bidx):
+                    if p[0] == 'fix':
+                        conds.append(b_ == p[1].idx)
+                    else:
+                        c, r = inv(b_)
+                        conds.append(c)
+                        vidx[p[1]] = r
+                vidx = [z3.IntVal(0) if v is None else v for v in vidx]       # newaxis positions
+                return (z3.And(*conds) if conds else z3.BoolVal(True)), vidx
+            out.from_base = from_base
         masks = [s for s in sels if s.mask is not None]
         if len(masks) == 1 and sels[0] is masks[0] and all(getattr(s, 'full', False) for s in sels[1:]):
-            out.term = ('filter', arr, masks[0].mask)
+            out.term = ('filter', arr, masks[0].mask, masks[0].mask_fn)
             out.filter_sel = masks[0]
         out.sels = sels
         out.base = arr
@@ -762,16 +837,14 @@ class NumpyModel(object):
         from .interp import raise_py
         if not arr.writeable:
             raise_py('ValueError', 'assignment destination is read-only')
-        if arr.view_of is not None:
-            raise Unsupported('write through a view (A-VIEW)')
-        for v in getattr(arr, 'views', []) or []:
-            v.stale = True
         if arr.dtype == 'object':
             raise Unsupported('write into an object array')
         sels = self.parse_key(arr, key)
+        if any(s.kind == 'new' for s in sels):
+            raise Unsupported('newaxis in an assignment target')
         # selected(target idx) and the result position it comes from
-        V = self.as_array(val) if not (isinstance(val, SV) or I.is_number(val)) else self.as_array(val)
-        old = arr.fn
+        V = self.as_array(val)
+        Vfn = V.fn            # the value is read now
         # shape of the selection
         sel_shape = []
         res_axes = []
@@ -811,7 +884,7 @@ class NumpyModel(object):
             raise Unsupported('store of infinity into an array')
         bits = arr.bits
 
-        def fn(*tidx):
+        def upd(*tidx):
             cond = []
             ridx = [None] * len(sel_shape)
             for s, inv, ra, t in zip(sels, invs, res_axes, tidx):
@@ -829,10 +902,31 @@ class NumpyModel(object):
                 pos = len(sel_shape) - V.ndim + k
                 dv = V.shape[k]
                 vidx.append(z3.IntVal(0) if (isinstance(dv, int) and dv == 1 and not (isinstance(sel_shape[pos], int) and sel_shape[pos] == 1)) else ridx[pos])
-            newv = self.cast(V.fn(*vidx), V.dtype, arr.dtype, bits)
-            return z3.If(z3.And(*cond) if cond else z3.BoolVal(True), newv, old(*tidx))
-        arr.fn = fn
+            newv = self.cast(Vfn(*vidx), V.dtype, arr.dtype, bits)
+            return (z3.And(*cond) if cond else z3.BoolVal(True)), newv
+        # the value is read now (its own later changes must not leak in): V was built by as_array/snapshot
+        self.apply_update(arr, upd)
         return None
+
+    def apply_update(self, arr, upd):
+        """arr[idx] := val(idx) where cond(idx); a view forwards the update to its base"""
+        if arr.view_of is None:
+            old = arr._fn
+
+            def fn(*idx, old=old, upd=upd):
+                c, v = upd(*idx)
+                return z3.If(c, v, old(*idx))
+            arr._fn = fn
+            return
+        if arr.from_base is None:
+            raise Unsupported('write through this kind of view (A-VIEW)')
+        fb = arr.from_base
+
+        def bupd(*bidx, fb=fb, upd=upd):
+            c0, vidx = fb(*bidx)
+            c, v = upd(*vidx)
+            return z3.And(c0, c), v
+        self.apply_update(arr.view_of, bupd)
 
     def inverse_of(self, s):
         """for a map selector: target index t -> (selected?, result position r)"""
@@ -859,20 +953,28 @@ class NumpyModel(object):
                 return c, r
             return inv
         if s.mask is not None and hasattr(s, 'rank'):
-            m, rank = s.mask, s.rank
-            return lambda t, m=m, rank=rank: (m.fn(t), rank(t))
+            mfn, rank = s.mask_fn, s.rank
+            return lambda t, mfn=mfn, rank=rank: (mfn(t), rank(t))
         if s.mask is not None:
             raise Unsupported('store through a small concrete mask')
         # symbolic integer list: needs distinctness to be a function; use an uninterpreted inverse + axiom
+        # (one inverse per index list: the same list always gets the same function)
+        cache = getattr(I.ctx, '_pos_cache', None)
+        if cache is None:
+            cache = I.ctx._pos_cache = {}
+        ckey = (e.sexpr(), z3.simplify(nz).sexpr())
+        if ckey in cache:
+            return cache[ckey][1]
         posf = I.ctx.fresh_fn('pos', z3.IntSort(), z3.IntSort())
         k = z3.Int('pos_k')
-        I.ctx.assume(z3.ForAll([k], z3.Implies(z3.And(0 <= k, k < nz), posf(s.fn(k)) >= k), patterns=[s.fn(k)]))
+        I.ctx.assume(forall_pat([k], z3.Implies(z3.And(0 <= k, k < nz), posf(s.fn(k)) >= k), [posf(s.fn(k))]))
         I.ctx.use_axiom('numpy:fancy store: last occurrence wins (pos = greatest k with idx[k]=t)')
         t_ = z3.Int('pos_t')
-        I.ctx.assume(z3.ForAll([t_], z3.Implies(z3.And(0 <= posf(t_), posf(t_) < nz), s.fn(posf(t_)) == t_), patterns=[posf(t_)]))
+        I.ctx.assume(forall_pat([t_], z3.Implies(z3.And(0 <= posf(t_), posf(t_) < nz), s.fn(posf(t_)) == t_), [posf(t_)]))
         def inv(t, posf=posf, nz=nz, s=s):
             r = posf(t)
             return (z3.And(0 <= r, r < nz, s.fn(r) == t), r)
+        cache[ckey] = (e, inv)
         return inv
 
     def mentions(self, e, v):
@@ -982,11 +1084,19 @@ class NumpyModel(object):
             out = self.copy_array(a)
         else:
             raise Unsupported('view(%r)' % (typ,))
+        out._fn = None
         out.bits = a.bits
         out.view_of = a
-        if getattr(a, 'views', None) is None:
-            a.views = []
-        a.views.append(out)
+        out.to_base = lambda *idx: list(idx)
+        out.from_base = lambda *bidx: (z3.BoolVal(True), list(bidx))
+        return out
+
+    def make_view(self, a, shape, to_base, from_base, dtype=None):
+        out = self.finish(shape, dtype or a.dtype, None, [a])
+        out.bits = a.bits
+        out.view_of = a
+        out.to_base = to_base
+        out.from_base = from_base
         return out
 
     def m_reshape(self, a, *shape, **kw):
@@ -996,27 +1106,27 @@ class NumpyModel(object):
         order = kw.get('order', 'C')
         if order != 'C':
             raise Unsupported('reshape order %s' % order)
+        self.ax('reshape/ravel/T of a C-contiguous array are views with row-major index arithmetic')
         if a.ndim == 1 and len(shape) == 2 and shape[0] == -1 and shape[1] == 1:
-            f = a.fn
-            out = self.finish([a.shape[0], 1], a.dtype, lambda i, j, f=f: f(i), [a])
-            out.view_of = a
-            return out
-        if a.ndim == 1 and len(shape) == 2 and all(I.kind(s) == 'int' for s in shape) and -1 not in shape:
-            f = a.fn
-            n1 = I.z(shape[1], 'int')
-            out = self.finish([self.norm_dim(I.z(shape[0], 'int')), self.norm_dim(n1)], a.dtype,
-                              lambda i, j, f=f, n1=n1: f(i * n1 + j), [a])
-            return out
+            return self.make_view(a, [a.shape[0], 1], lambda i, j: [i], lambda r: (z3.BoolVal(True), [r, z3.IntVal(0)]))
+        if a.ndim == 1 and len(shape) == 2 and all(I.kind(s_) == 'int' for s_ in shape) and -1 not in shape:
+            n0, n1 = I.z(shape[0], 'int'), I.z(shape[1], 'int')
+            total = self.dim_z(a.shape[0])
+            if not I.ctx.branch(n0 * n1 == total, safety=False):
+                from .interp import raise_py
+                raise_py('ValueError', 'cannot reshape array')
+            return self.make_view(a, [self.norm_dim(n0), self.norm_dim(n1)], lambda i, j, n1=n1: [i * n1 + j],
+                                  lambda r, n1=n1: (z3.BoolVal(True), [r / n1, r % n1]))
         raise Unsupported('reshape %r' % (shape,))
 
     def m_ravel(self, a, order='C'):
         if a.ndim == 1:
-            return self.copy_array(a)
+            return self.make_view(a, list(a.shape), lambda i: [i], lambda r: (z3.BoolVal(True), [r]))
         if a.ndim == 2 and order == 'C':
-            f = a.fn
+            self.ax('reshape/ravel/T of a C-contiguous array are views with row-major index arithmetic')
             n0, n1 = self.dim_z(a.shape[0]), self.dim_z(a.shape[1])
-            out = self.finish([self.norm_dim(n0 * n1)], a.dtype, lambda r, f=f, n1=n1: f(r / n1, r % n1), [a])
-            return out
+            return self.make_view(a, [self.norm_dim(n0 * n1)], lambda r, n1=n1: [r / n1, r % n1],
+                                  lambda i, j, n1=n1: (z3.BoolVal(True), [i * n1 + j]))
         raise Unsupported('ravel')
 
     def m_tolist(self, a):
@@ -1047,8 +1157,7 @@ class NumpyModel(object):
         if a.ndim < 2:
             return a
         if a.ndim == 2:
-            f = a.fn
-            return self.finish([a.shape[1], a.shape[0]], a.dtype, lambda i, j, f=f: f(j, i), [a])
+            return self.make_view(a, [a.shape[1], a.shape[0]], lambda i, j: [j, i], lambda i, j: (z3.BoolVal(True), [j, i]))
         raise Unsupported('transpose of %d-d array' % a.ndim)
 
     def ndarray_unbound(self, name):
@@ -1097,8 +1206,9 @@ class NumpyModel(object):
         a = self.as_array(a)
         if isinstance(axis, SV):
             raise Unsupported('symbolic axis')
+        afn = a.fn
         if a.ndim == 0:
-            return self.scalar(a.fn(), a.dtype)
+            return self.scalar(afn(), a.dtype)
         if axis is None and a.ndim == 1:
             axis = 0
         if axis is None:
@@ -1106,7 +1216,7 @@ class NumpyModel(object):
                 # over every element
                 idx = [z3.Int('red_i%d' % d) for d in range(a.ndim)]
                 rng = z3.And(*[z3.And(0 <= i, i < self.dim_z(s)) for i, s in zip(idx, a.shape)])
-                body = a.fn(*idx) if a.dtype == 'bool' else self.cast(a.fn(*idx), a.dtype, 'bool')
+                body = afn(*idx) if a.dtype == 'bool' else self.cast(afn(*idx), a.dtype, 'bool')
                 e = z3.ForAll(idx, z3.Implies(rng, body)) if name == 'all' else z3.Exists(idx, z3.And(rng, body))
                 return self.scalar(e, 'bool')
             raise Unsupported('full reduction %s of a %d-d array' % (name, a.ndim))
@@ -1117,7 +1227,7 @@ class NumpyModel(object):
 
         def at(ridx, j):
             full = list(ridx[:axis]) + [j] + list(ridx[axis:])
-            return a.fn(*full)
+            return afn(*full)
         if name in ('all', 'any'):
             tobool = (lambda e: e) if a.dtype == 'bool' else (lambda e: self.cast(e, a.dtype, 'bool'))
             if isinstance(n, int):
@@ -1168,9 +1278,9 @@ class NumpyModel(object):
                 r = I.ctx.fresh_real('red_%s' % name) if a.dtype == 'float' else I.ctx.fresh_int('red_%s' % name)
                 w = I.ctx.fresh_int('red_arg')
                 j = z3.Int('red_j')
-                I.ctx.assume(z3.And(0 <= w, w < nz, a.fn(w) == r))
+                I.ctx.assume(z3.And(0 <= w, w < nz, afn(w) == r))
                 cmpf = (lambda x: x <= r) if name == 'max' else (lambda x: x >= r)
-                I.ctx.assume(z3.ForAll([j], z3.Implies(z3.And(0 <= j, j < nz), cmpf(a.fn(j)))))
+                I.ctx.assume(z3.ForAll([j], z3.Implies(z3.And(0 <= j, j < nz), cmpf(afn(j)))))
                 self.ax('np.max/np.min: an element that bounds all others')
                 return self.scalar(r, a.dtype)
         raise Unsupported('reduction %s over a symbolic axis' % name)
@@ -1343,9 +1453,10 @@ class NumpyModel(object):
                     raise_py('ValueError', 'shapes not aligned')
                 m = A.shape[1]
                 self.ax('np.dot of 2-d arrays = sum over the shared axis')
+                Afn, Bfn = A.fn, B.fn
 
                 def fn(i, j):
-                    return z3.Sum([self.cast(A.fn(i, z3.IntVal(t)), A.dtype, 'float') * self.cast(B.fn(z3.IntVal(t), j), B.dtype, 'float')
+                    return z3.Sum([self.cast(Afn(i, z3.IntVal(t)), A.dtype, 'float') * self.cast(Bfn(z3.IntVal(t), j), B.dtype, 'float')
                                    for t in range(m)])
                 return self.new([A.shape[0], B.shape[1]], 'float', fn)
             raise Unsupported('np.dot on these shapes')
